@@ -529,6 +529,8 @@ def _run(case):
     n_vs = len(mol.interactions['virtual_sitesn'])
     before_excl = list(mol.interactions['exclusions'])
     before_vs = list(mol.interactions['virtual_sitesn'])
+    before_other = {name: list(inters) for name, inters in mol.interactions.items()
+                    if name not in ('exclusions', 'virtual_sitesn')}
     kwargs = dict(moltype=case['moltype'], cutoff_short=case['short'], cutoff_long=case['long'],
                   go_eps=case['eps'], res_dist=case['res_dist'], go_anchor_bead=case['anchor'],
                   go_atomname=case['vsname'])
@@ -689,6 +691,10 @@ def _run(case):
         if pair not in got:
             raise Violation('exclusion-extra', 'backbone beads of pair %s are excluded without a Go potential' % (_pair_text(case, pair),))
 
+    for name, inters in mol.interactions.items():
+        if name not in ('exclusions', 'virtual_sitesn') and list(inters) != before_other.get(name, []):
+            raise Violation('old-interaction-changed', 'interactions %r changed' % (name,))
+
     # ---- classes
     classes = []
     sole = set()
@@ -725,6 +731,13 @@ def _run(case):
         classes.append('cross-link')
     if not case['contacts']:
         classes.append('empty-list')
+
+    def near(info):
+        return any(abs(info['d'] - cut) <= 1e-6 * cut for cut in (case['short'], case['long']))
+    if any(info['state'] == 'yes' and near(info) for info in verdict.values()):
+        classes.append('near-cutoff-accepted')
+    if any(info['state'] == 'no' and info['fails'] in (['short'], ['long']) and near(info) for info in verdict.values()):
+        classes.append('near-cutoff-rejected')
     all_filters = {'accepted', 'one-directional', 'absent', 'graph', 'short', 'long'} <= sole
     if all_filters:
         classes.append('all-filters')
@@ -745,7 +758,7 @@ def _pair_text(case, pair):
 
 def moltype_prefix_of_beadtype(params, part_name, case, violation):
     """Molecule name is a prefix of a regular bead type of the molecule."""
-    if not violation.bucket.startswith('contact-'):
+    if violation.bucket != 'contact-names-regular-beadtype':
         return False
     return any(a[3].startswith(case['moltype']) for a in case['atoms'])
 
@@ -755,7 +768,11 @@ MATCHERS = {'moltype_prefix_of_beadtype': moltype_prefix_of_beadtype}
 
 PARTS = [
     Part('pipeline', _run, strategy=_strategy,
-         examples={'quick': 2000, 'thorough': 50000}),
+         examples={'quick': 2000, 'thorough': 50000},
+         floors={'accepted': 0.5, 'absent': 0.3, 'only-one-directional': 0.35, 'only-graph': 0.4, 'only-short': 0.3,
+                 'only-long': 0.4, 'all-filters': 0.1, 'chains-overlap': 0.4, 'cross-link': 0.25,
+                 'rejected-at-res-dist': 0.2, 'accepted-at-min-separation': 0.12, 'self-contact': 0.2, 'tie': 0.1,
+                 'via-file': 0.15, 'near-cutoff-accepted': 0.08, 'near-cutoff-rejected': 0.15}),
     Part('names', _run, strategy=_strategy_names,
          examples={'quick': 160, 'thorough': 2000}),
 ]
